@@ -395,6 +395,212 @@ fn probe_bad_raa(flip_secret: bool, after_updates: usize) -> Option<String> {
 	if rejected && gone { None } else { Some(format!("a revoke_and_ack with a corrupted per_commitment_secret (flip_secret={}, after {} updates) was not refused (protocol error seen: {}, channel unusable: {})", flip_secret, after_updates, rejected, gone)) }
 }
 
+/// C05 (seeded C05-r4 family): a revoke_and_ack the peer was NOT asked for. Node 0 is the misbehaving peer, node 1 the node under
+/// test. The revoke_and_ack is crafted from node 0's real signer (through its ChannelMonitor's signer handle, bypassing the test
+/// signer's own policy): the REAL secret of the commitment number `reveal`, so that the secret-vs-point check and the secret store
+/// both agree with it, and only the "unexpected revoke_and_ack" rule can refuse it.
+fn craft_raa(net: &Net, from: usize, c: usize, reveal: u64, next_for: u64) -> Option<lightning::ln::msgs::RevokeAndACK> {
+	use lightning::sign::ChannelSigner;
+	let cid = net.chans[c].2;
+	let mon = net.nodes[from].chain_monitor.chain_monitor.get_monitor(cid).ok()?;
+	let secp = bitcoin::secp256k1::Secp256k1::new();
+	let mut out = None;
+	mon.do_mut_signer_call(|signer| {
+		if let (Ok(s), Ok(p)) = (signer.inner.release_commitment_secret(reveal), signer.inner.get_per_commitment_point(next_for, &secp)) { out = Some((s, p)); }
+	});
+	let (s, p) = out?;
+	Some(lightning::ln::msgs::RevokeAndACK { channel_id: cid, per_commitment_secret: s, next_per_commitment_point: p, release_htlc_message_paths: Vec::new() })
+}
+
+/// what node `i`'s ChannelMonitor knows about the counterparty's commitments: (current counterparty commitment number, min seen secret)
+fn mon_cp_numbers(net: &Net, i: usize, c: usize) -> Option<(u64, u64)> {
+	let m = net.nodes[i].chain_monitor.chain_monitor.get_monitor(net.chans[c].2).ok()?;
+	let n = lightning::ln::verif_hooks::monitor_restart_numbers(&*m);
+	Some((n[1], n[2]))
+}
+
+/// Deliver `raa` from node 0 to node 1 right now (ahead of anything queued) and compare, returning (op line, impl answer, class).
+/// Impl-side oracle (independent of the Lean model): if node 1 was not AwaitingRemoteRevoke, the revoke_and_ack must change nothing
+/// — same counterparty commitment number and same stored secrets in channel and monitor, no CommitmentSecret monitor update — and
+/// must end in a protocol error with the channel unusable; if it was, the number moves by exactly one and the newly stored secret
+/// is the one for the old number + 1.
+fn deliver_unsolicited(net: &mut Net, c: usize, raa: lightning::ln::msgs::RevokeAndACK, msg_bits: &str, what: &str, viol: &mut Vec<String>) -> Option<(String, String, String)> {
+	use lightning::ln::verif_hooks as vh;
+	let (cp0, cid) = (net.ids[0], net.chans[c].2);
+	let atoms = vh::channel_raa_guard_inputs(net.nodes[1].node, &cp0, &cid)?;
+	let t: Vec<&str> = atoms.split(' ').collect();
+	let awaiting = t[1].as_bytes()[12] == b'1';
+	let cp_next_before: u64 = t[0].parse().ok()?;
+	let chan_before = vh::channel_restart_numbers(net.nodes[1].node, &cp0, &cid)?;
+	let mon_before = mon_cp_numbers(net, 1, c)?;
+	net.q.entry((0, 1)).or_default().push_front(Wire::Raa(raa));
+	let before = net.trace.len();
+	net.deliver(0, 1)?;
+	net.process_events(1);
+	let err: Option<(String, String)> = net.trace[before..].iter().find_map(|o| if let Obs::ProtoError { node: 1, text } = o {
+		let kind = if text.starts_with("SendErrorMessage") { "close" } else if text.starts_with("DisconnectPeerWithWarning") { "WarnAndDisconnect" } else if text.starts_with("SendWarningMessage") { "Warn" } else { "other" };
+		// the trace keeps 200 characters of the action: the full text is in the error message queued for the peer
+		let full = net.q.get(&(1, 0)).and_then(|q| q.iter().rev().find_map(|w| if let Wire::Error(m) = w { Some(m.data.clone()) } else { None }));
+		let data = full.unwrap_or_else(|| text.split("data: \"").nth(1).map(|x| x.split('"').next().unwrap_or("").to_string()).unwrap_or_default());
+		Some((kind.to_string(), data)) } else { None });
+	let secret_updates = net.trace[before..].iter().filter(|o| matches!(o, Obs::Update { node: 1, kinds, .. } if kinds.iter().any(|k| *k == "CommitmentSecret"))).count();
+	let chan_after = vh::channel_restart_numbers(net.nodes[1].node, &cp0, &cid);
+	let mon_after = mon_cp_numbers(net, 1, c)?;
+	let usable = net.nodes[1].node.list_channels().iter().any(|d| d.channel_id == cid && d.is_usable);
+	let desc = format!("{} (node 1 before: AwaitingRemoteRevoke={}, next counterparty commitment number {}, guard inputs `{}`)", what, awaiting, cp_next_before, atoms);
+	if !awaiting {
+		if let Some(a) = chan_after { if a[3] != chan_before[3] || a[4] != chan_before[4] { viol.push(format!("unsolicited revoke_and_ack ACCEPTED: {}: counterparty commitment number moved {} -> {} (revoked {} -> {}) without a commitment_signed from us", desc, chan_before[3], a[3], chan_before[4], a[4])); } }
+		if mon_after != mon_before { viol.push(format!("unsolicited revoke_and_ack reached the ChannelMonitor: {}: (counterparty commitment number, min seen secret) {:?} -> {:?}", desc, mon_before, mon_after)); }
+		if secret_updates != 0 { viol.push(format!("unsolicited revoke_and_ack produced a CommitmentSecret monitor update: {}", desc)); }
+		if err.is_none() || usable { viol.push(format!("unsolicited revoke_and_ack not answered by closing the channel with a protocol error: {}: error seen: {:?}, channel still usable: {}", desc, err, usable)); }
+	} else if err.is_none() {
+		let cp_next_after = vh::channel_raa_guard_inputs(net.nodes[1].node, &cp0, &cid).and_then(|a| a.split(' ').next().and_then(|x| x.parse::<u64>().ok()));
+		match chan_after { Some(a) if a[4] + 1 == chan_before[4] && cp_next_after == Some(cp_next_before - 1) => {}, other => viol.push(format!("accepted revoke_and_ack did not move the counterparty commitment numbers by exactly one: {}: next {} -> {:?}, [.., cur, revoked, ..] {:?} -> {:?}", desc, cp_next_before, cp_next_after, chan_before, other)) }
+		if mon_after.1 != cp_next_before + 1 || secret_updates != 1 { viol.push(format!("accepted revoke_and_ack: {}: the monitor's min seen secret is {} (expected {}), CommitmentSecret updates: {}", desc, mon_after.1, cp_next_before + 1, secret_updates)); }
+	}
+	let op = format!("raag {} {}{} {} {}", t[0], t[1], msg_bits, t[2], t[3]);
+	let (ans, class) = match &err {
+		Some((kind, data)) => (format!("err {} {}", kind, data.replace(' ', "_")), format!("raag:{}:err:{}", what.split(':').next().unwrap_or(""), data.chars().take(40).collect::<String>().replace(' ', "_"))),
+		None => {
+			let cp_after = vh::channel_raa_guard_inputs(net.nodes[1].node, &cp0, &cid).and_then(|a| a.split(' ').next().and_then(|x| x.parse::<u64>().ok()));
+			(format!("ok cp={} idx={}", cp_after.map(|x| x.to_string()).unwrap_or("?".into()), mon_after.1), format!("raag:{}:accepted", what.split(':').next().unwrap_or("")))
+		},
+	};
+	Some((op, ans, class))
+}
+
+/// `kind`: 0 idle channel; 1 peer's update_add_htlc pending without commitment_signed (seeded C05-r4); 2 peer's update_fulfill_htlc pending
+/// without commitment_signed; 3 a SECOND revoke_and_ack (revealing the then-current secret) right after a solicited one, while node 1
+/// expects the peer's commitment_signed; 4 the literal replay of the revoke_and_ack just processed; 5 idle after disconnect + completed
+/// reestablish; 6 after reconnect but BEFORE channel_reestablish was processed; 7 peer's update_fee pending without commitment_signed;
+/// 8 all-zero secret while a revocation IS owed; 9 the solicited revoke_and_ack (control: must be accepted); 10 node 1's own commitment
+/// built but held back by an in-flight monitor update (AwaitingRemoteRevoke is set: accepted, the peer burned its own state);
+/// 11 wrong secret (the one of the number below) while a revocation is owed.
+fn probe_unsolicited_raa(kind: u8, n_before: usize) -> Option<(Vec<(String, String, String)>, Vec<String>)> {
+	use lightning::ln::verif_hooks as vh;
+	let mut viol = vec![];
+	let mut cases = vec![];
+	let mut net = Net::new(2, vec![None, None]);
+	let c = net.open(0, 1, 1_000_000, 400_000_000);
+	let (id0, id1, cid) = (net.ids[0], net.ids[1], net.chans[c].2);
+	for _ in 0..n_before { let p = net.send(&[0, 1], &[c], 1_000_000, 80).ok()?; net.settle(8); net.claim(p); net.settle(8); }
+	// node 0's current holder commitment number: the newest state it could (wrongly) revoke
+	let cur = |net: &Net| vh::channel_restart_numbers(net.nodes[0].node, &id1, &cid).map(|n| n[2]);
+	let tag = |k: &str| format!("{}:after-{}-payments", k, n_before);
+	match kind {
+		0 => { let n = cur(&net)?; let raa = craft_raa(&net, 0, c, n, n - 2)?; cases.push(deliver_unsolicited(&mut net, c, raa, "1111", &tag("idle"), &mut viol)?); },
+		1 => {
+			net.send(&[0, 1], &[c], 2_000_000, 80).ok()?;
+			if net.deliver(0, 1)? != "add" { return None; } // the commitment_signed stays queued
+			let n = cur(&net)?; let raa = craft_raa(&net, 0, c, n, n - 2)?;
+			cases.push(deliver_unsolicited(&mut net, c, raa, "1111", &tag("peer-add-pending"), &mut viol)?);
+		},
+		2 => {
+			let p = net.send(&[1, 0], &[c], 2_000_000, 80).ok()?; net.settle(8);
+			net.claim(p);
+			if net.deliver(0, 1)? != "fulfill" { return None; }
+			let n = cur(&net)?; let raa = craft_raa(&net, 0, c, n, n - 2)?;
+			cases.push(deliver_unsolicited(&mut net, c, raa, "1111", &tag("peer-fulfill-pending"), &mut viol)?);
+		},
+		3 | 4 => {
+			// node 1 fulfils node 0's HTLC: 1 -> 0 fulfill + cs; 0 -> 1 raa (+ cs, kept queued)
+			let p = net.send(&[0, 1], &[c], 2_000_000, 80).ok()?; net.settle(8);
+			net.claim(p); net.process_events(1);
+			while net.queued(1, 0) > 0 { net.deliver(1, 0)?; }
+			let replay = match net.q.get(&(0, 1)).and_then(|q| q.front()) { Some(Wire::Raa(m)) => m.clone(), _ => return None };
+			if net.deliver(0, 1)? != "raa" { return None; } // the solicited one; node 0's commitment_signed is still queued
+			if kind == 3 { let n = cur(&net)?; let raa = craft_raa(&net, 0, c, n, n - 2)?; cases.push(deliver_unsolicited(&mut net, c, raa, "1111", &tag("second-raa-while-expecting-cs"), &mut viol)?); }
+			else { cases.push(deliver_unsolicited(&mut net, c, replay, "1011", &tag("replayed-raa"), &mut viol)?); }
+		},
+		5 | 6 => {
+			net.disconnect(0, 1); net.reconnect(0, 1);
+			if kind == 5 { net.settle(8); }
+			let n = cur(&net)?; let raa = craft_raa(&net, 0, c, n, n - 2)?;
+			cases.push(deliver_unsolicited(&mut net, c, raa, "1111", &tag(if kind == 5 { "idle-after-reestablish" } else { "before-reestablish" }), &mut viol)?);
+		},
+		7 => {
+			{ let mut f = net.nodes[0].fee_estimator.sat_per_kw.lock().unwrap(); *f += 100; }
+			net.nodes[0].node.timer_tick_occurred(); net.pump(0);
+			if net.deliver(0, 1)? != "fee" { return None; }
+			let n = cur(&net)?; let raa = craft_raa(&net, 0, c, n, n - 2)?;
+			cases.push(deliver_unsolicited(&mut net, c, raa, "1111", &tag("peer-fee-pending"), &mut viol)?);
+		},
+		8 | 9 | 11 => {
+			net.send(&[0, 1], &[c], 2_000_000, 80).ok()?;
+			for _ in 0..2 { net.deliver(0, 1)?; } // add + cs: node 1 answers raa + cs
+			while net.queued(1, 0) > 0 { net.deliver(1, 0)?; } // node 0 answers with the solicited raa (+ cs)
+			let q = net.q.get_mut(&(0, 1))?;
+			let raa = match q.pop_front() { Some(Wire::Raa(m)) => m, _ => return None };
+			match kind {
+				8 => { let mut m = raa.clone(); m.per_commitment_secret = [0; 32]; cases.push(deliver_unsolicited(&mut net, c, m, "0111", &tag("zero-secret-while-owed"), &mut viol)?); },
+				11 => { let n = cur(&net)?; let m = craft_raa(&net, 0, c, n, n - 2)?; cases.push(deliver_unsolicited(&mut net, c, m, "1011", &tag("next-secret-while-owed"), &mut viol)?); },
+				_ => { cases.push(deliver_unsolicited(&mut net, c, raa, "1111", &tag("solicited"), &mut viol)?); },
+			}
+		},
+		_ => {
+			net.set_mode(1, true);
+			net.send(&[1, 0], &[c], 2_000_000, 80).ok()?; // commitment built, AwaitingRemoteRevoke set, messages held
+			let n = cur(&net)?; let raa = craft_raa(&net, 0, c, n, n - 2)?;
+			cases.push(deliver_unsolicited(&mut net, c, raa, "1111", &tag("own-commitment-built-not-released"), &mut viol)?);
+		},
+	}
+	let _ = id0;
+	std::mem::forget(net);
+	Some((cases, viol))
+}
+
+/// C05, holder side ("a broadcast state is never revoked"): node 1's ChannelMonitor signs / queues its latest holder commitment
+/// (`sign`: ChannelMonitor::broadcast_latest_holder_commitment_txn => holder_tx_signed), then node 0 sends update_add_htlc +
+/// commitment_signed. Impl oracle: node 1 must NOT release a revoke_and_ack (its signer's `last_holder_revoked_commitment` stays
+/// where it was), although the monitor did take the new holder commitment. Control (`sign` = false): the revoke_and_ack is released
+/// once the update completes and the revoked number is exactly the old holder commitment number. Op line `hgate` for the model.
+fn probe_signed_then_cs(sign: bool, persist_completed: bool) -> Option<(String, String, String, Vec<String>)> {
+	use lightning::ln::verif_hooks as vh;
+	let mut viol = vec![];
+	let mut net = Net::new(2, vec![None, None]);
+	let c = net.open(0, 1, 1_000_000, 400_000_000);
+	let (id0, cid) = (net.ids[0], net.chans[c].2);
+	let p = net.send(&[0, 1], &[c], 1_000_000, 80).ok()?; net.settle(8); net.claim(p); net.settle(8);
+	let holder_before = vh::channel_restart_numbers(net.nodes[1].node, &id0, &cid)?[2];
+	let revoked_of = |net: &Net| -> Option<u64> { let mut r = None; net.nodes[1].chain_monitor.chain_monitor.get_monitor(cid).ok()?.do_mut_signer_call(|s| { r = Some(s.get_enforcement_state().last_holder_revoked_commitment); }); r };
+	let revoked_before = revoked_of(&net)?;
+	if sign {
+		let n = &net.nodes[1];
+		n.chain_monitor.chain_monitor.get_monitor(cid).ok()?.broadcast_latest_holder_commitment_txn(&n.tx_broadcaster, &n.fee_estimator, &n.logger);
+	}
+	if !persist_completed { net.set_mode(1, true); }
+	net.send(&[0, 1], &[c], 2_000_000, 80).ok()?;
+	let before = net.trace.len();
+	for _ in 0..2 { net.deliver(0, 1)?; } // add + commitment_signed
+	let raa_now = net.trace[before..].iter().any(|o| matches!(o, Obs::Msg { from: 1, kind: "raa", .. }));
+	let mon_holder = { let m = net.nodes[1].chain_monitor.chain_monitor.get_monitor(cid).ok()?; vh::monitor_restart_numbers(&*m)[0] };
+	let pending = net.pending_updates(1, c);
+	// let whatever is in flight complete, and the node process its monitor events
+	net.set_mode(1, false);
+	for id in pending.clone() { net.complete(1, c, id); }
+	net.process_events(1); net.pump(1);
+	let raa_later = net.trace[before..].iter().any(|o| matches!(o, Obs::Msg { from: 1, kind: "raa", .. }));
+	let revoked_after = revoked_of(&net)?;
+	if sign {
+		if raa_later || revoked_after != revoked_before { viol.push(format!("holder commitment {} was handed to the signer for broadcast (holder_tx_signed) and then REVOKED: a commitment_signed received afterwards (persister {}) released a revoke_and_ack (seen: {}), signer's last revoked holder commitment {} -> {}", holder_before, if persist_completed { "Completed" } else { "InProgress" }, raa_later, revoked_before, revoked_after)); }
+	} else {
+		if !raa_later || revoked_after != holder_before { viol.push(format!("control: revoke_and_ack after a completed holder commitment update: seen {}, revoked number {} (expected {})", raa_later, revoked_after, holder_before)); }
+		if !persist_completed && raa_now { viol.push("control: revoke_and_ack released while the holder commitment update was still InProgress".to_string()); }
+	}
+	// did the holder-commitment update reach the monitor at all? (after a signature the manager processes the monitor's
+	// HolderForceClosed event first and closes the channel: the commitment_signed then finds no channel)
+	let reached = net.trace[before..].iter().any(|o| matches!(o, Obs::Update { node: 1, kinds, .. } if kinds.iter().any(|k| k.starts_with("HolderCommitment"))));
+	let closed = !net.nodes[1].node.list_channels().iter().any(|d| d.channel_id == cid);
+	if reached && mon_holder != holder_before - 1 { viol.push(format!("the monitor did not take the new holder commitment: number {} (expected {})", mon_holder, holder_before - 1)); }
+	if !sign && !reached { viol.push("control: no holder commitment monitor update was generated".to_string()); }
+	let op = format!("hgate 0 0 {} {} {} {}", sign as u8, persist_completed as u8, holder_before, (!reached && closed) as u8);
+	let released_at_once = raa_now as u8;
+	let held = if raa_now { "-".to_string() } else { format!("{}:{}", holder_before, if raa_later { 0 } else { 1 }) };
+	let ans = if !reached && closed { "disabled".to_string() } else { format!("mon={} released={} held={}", mon_holder, released_at_once, held) };
+	std::mem::forget(net);
+	Some((op, ans, format!("hgate:signed={}:persist={}:{}", sign, persist_completed, if reached { "update-reached-monitor" } else { "channel-closed-first" }), viol))
+}
+
 /// C05: a `commitment_signed` whose HTLC signatures are missing, surplus, permuted or signatures of something else must be
 /// refused BEFORE the node revokes its previous state: no `revoke_and_ack` in answer, protocol error, channel unusable.
 /// (`kind`: 0 drop the last HTLC signature, 1 drop all, 2 replace one by the commitment signature, 3 swap two, 4 append one)
@@ -927,6 +1133,21 @@ fn main() {
 			match guarded(std::panic::AssertUnwindSafe(|| probe_bad_cs(kind, n))) { Ok(Some(m)) => rec.oracle_fail(m), Ok(None) => { *reached_in.entry("bad_cs_refused".into()).or_insert(0) += 1; }, Err(p) => rec.oracle_fail(format!("bad commitment_signed probe (kind {}, {} HTLCs) panicked: {}", kind, n, p.chars().take(200).collect::<String>())) }
 		} }
 		rec.notes.insert("bad_cs_probes_refused".into(), format!("{}", reached_in.get("bad_cs_refused").copied().unwrap_or(0)));
+		for sign in [false, true] { for pc in [true, false] {
+			match guarded(std::panic::AssertUnwindSafe(|| probe_signed_then_cs(sign, pc))) {
+				Ok(Some((op, ans, class, viol))) => { for v in viol { rec.oracle_fail(v); } rec.case(&op, &ans, &class, true); },
+				Ok(None) => rec.oracle_fail(format!("signed-then-commitment_signed probe (sign {}, persist completed {}) could not be set up", sign, pc)),
+				Err(p) => rec.oracle_fail(format!("signed-then-commitment_signed probe (sign {}, persist completed {}) panicked: {}", sign, pc, p.chars().take(240).collect::<String>())),
+			}
+		} }
+		for n_before in [0usize, 1, 2] { for kind in 0..12u8 {
+			if n_before == 2 && !(args.thorough || kind <= 4) { continue; }
+			match guarded(std::panic::AssertUnwindSafe(|| probe_unsolicited_raa(kind, n_before))) {
+				Ok(Some((cases, viol))) => { for v in viol { rec.oracle_fail(v); } for (op, ans, class) in cases { rec.case(&op, &ans, &class, true); } },
+				Ok(None) => rec.oracle_fail(format!("unsolicited revoke_and_ack probe (kind {}, after {} payments) could not be set up", kind, n_before)),
+				Err(p) => rec.oracle_fail(format!("unsolicited revoke_and_ack probe (kind {}, after {} payments) panicked: {}", kind, n_before, p.chars().take(240).collect::<String>())),
+			}
+		} }
 	}
 	if args.model == "mongate" && std::env::var("VERIF_PROPERTY").map(|p| p == "C09").unwrap_or(true) {
 		for second in 0..3u8 { for desc in [false, true] {
